@@ -398,6 +398,14 @@ static void run_script(unit_t *u, int inc)
             ABT_thread_yield();
         return;
     }
+    if (rnd(4) == 0) {
+        /* a unit cannot free itself: the call is rejected and leaves the caller's handle alone */
+        ABT_thread me, h;
+        CHK(ABT_thread_self(&me));
+        h = me;
+        int r = ABT_thread_free(&h);
+        EV("\"e\":\"FreeRej\",\"u\":%d,\"ret\":%d,\"same\":%d", who, r == ABT_ERR_INV_THREAD ? 1 : r == ABT_SUCCESS ? 0 : 2, h == me);
+    }
     for (int i = 0; i < u->ns; i++) {
         sop_t *o = &u->s[i];
         switch (o->op) {
